@@ -16,4 +16,4 @@ package errorhandlers
 // the error recorded for the request carries exactly that status
 //@ func (*redirectErrorHandler).Execute
 //@   props C12 C01
-//@   assert at store Code#1: stored == eh.code
+//@   assert at store Code#1@f5f2c386.1: stored == eh.code
